@@ -1,8 +1,10 @@
 package gen
 
 import (
+	"archive/zip"
 	"bufio"
 	"encoding/json"
+	"io"
 	"os"
 	"path/filepath"
 	"strings"
@@ -45,8 +47,21 @@ func LoadCorpus(repoDir string) *Corpus {
 			}
 			_ = f.Close()
 		}
+		// requests.json is unpacked from requests.json.zip by the repository's
+		// own tests and is not tracked by git; read the archive when the
+		// unpacked file is absent (scratch worktrees).
+		var rd io.ReadCloser
 		if f, err := os.Open(filepath.Join(repoDir, "testdata", "requests.json")); err == nil {
-			sc := bufio.NewScanner(f)
+			rd = f
+		} else if zr, zerr := zip.OpenReader(filepath.Join(repoDir, "testdata", "requests.json.zip")); zerr == nil {
+			for _, zf := range zr.File {
+				if strings.HasSuffix(zf.Name, "requests.json") {
+					rd, _ = zf.Open()
+				}
+			}
+		}
+		if rd != nil {
+			sc := bufio.NewScanner(rd)
 			sc.Buffer(make([]byte, 1<<20), 1<<26)
 			for sc.Scan() {
 				var r CorpusReq
@@ -54,7 +69,7 @@ func LoadCorpus(repoDir string) *Corpus {
 					corpus.Requests = append(corpus.Requests, r)
 				}
 			}
-			_ = f.Close()
+			_ = rd.Close()
 		}
 	})
 
